@@ -11,7 +11,7 @@ CONSTANTS
   SyncDelivery = FALSE
   Faults = 0
 SYMMETRY Sym
-INVARIANTS TypeOK NoEarlyPartialButStaleTick NoEarlyBeacon CacheAboveAggLast
+INVARIANTS TypeOK NoEarlyPartial NoEarlyBeacon CacheAboveAggLast
 PROPERTIES NoSkip
 CHECK_DEADLOCK FALSE
 VIEW View
